@@ -57,6 +57,12 @@ def make_recipe(rng, tier):
         X = np.round(2 * X)
     elif rng.random() < 0.2:
         X = X * float(rng.choice([1e-3, 1e-5, 1e-7]))  # the same signal in a small unit of measurement
+    if not int_dtype and rng.random() < 0.05:
+        # finite data whose squares overflow: some candidate scores become NaN, which exceeds no
+        # threshold, so no anomaly may rest on a NaN-scored candidate
+        for _ in range(int(rng.integers(1, 3))):
+            X[int(rng.integers(n)), int(rng.integers(p))] = float(rng.choice([1e160, -1e160, 1e200]))
+        kind = kind + "+overflow"
     return {"det": spec, "X": X, "data_kind": kind, "int_dtype": int_dtype, "history": H.pick(rng),
             "hseed": int(rng.integers(2 ** 31)), "frame": "df" if rng.random() < 0.5 else None}
 
@@ -130,9 +136,13 @@ def exec_case(ctx, r):
                           f"admissible inner interval yet reports score {sc[i]}", r)
             return
         cuts = np.array([(st[i], a, b, en[i]) for a, b in cand], dtype=np.int64)
-        agg = score.evaluate(cuts).sum(axis=1)
+        with np.errstate(all="ignore"):
+            agg = score.evaluate(cuts).sum(axis=1)
         ctx.stat("table_rows_checked")
         ctx.stat("inner_intervals_evaluated", len(cand))
+        if not (np.all(np.isfinite(agg)) and np.isfinite(sc[i])):
+            ctx.stat("nonfinite_rows_skipped")  # overflowing data: only the selection clauses are judged
+            continue
         tol = 1e-9 * np.abs(agg).max() + 1e-300  # purely relative: scores scale with the data's unit
         if abs(sc[i] - agg.max()) > tol:
             ctx.violation(sub, "row-score", f"{label}: candidate [{st[i]},{en[i]}) reports score {sc[i]} "
@@ -147,7 +157,9 @@ def exec_case(ctx, r):
     def removes(i):
         return (a_e[i] > st) & (a_s[i] < en)
 
-    outs = greedy_outcomes(sc, list(zip(a_s.tolist(), a_e.tolist())), removes, thr)
+    if np.any(np.isnan(sc)):
+        ctx.stat("cases[NaN scores]")
+    outs = greedy_outcomes(np.where(np.isnan(sc), -np.inf, sc), list(zip(a_s.tolist(), a_e.tolist())), removes, thr)
     if outs is None:
         ctx.stat("near_tie_skipped")
     else:
